@@ -7,6 +7,7 @@ import MgProof.C06.Lemmas
 `(avail p ++ r.live).Perm (allBlocks p.slabs)`: the pointers available in the ring
 together with the live blocks are exactly all blocks of all data buffers, each once.
 -/
+set_option linter.unusedSimpArgs false
 namespace MgProof.C06
 open MgModel.C06
 
@@ -430,5 +431,239 @@ theorem alloc_ok {E : Env} {p r} (hE1 : E.fixEmpty = true) (hE2 : E.fixBytes = t
     · rw [husd, hcap]; exact hlt
     · rw [h.slabs]; exact hval
     · exact hnl
+
+
+/-- which operations the theorems speak about: frees of live blocks only (the API contract),
+    and no wrap-around of the `uint32_t` sum `capacity + delta_cap` at an automatic growth -/
+def Valid (r : Ref) : Op → Prop
+  | .free b => b ∈ r.live
+  | .alloc => r.used = r.cap → r.cap + r.growStep < U32
+  | _ => True
+
+/-- every valid operation of the repaired source: no error, result accepted by the reference,
+    invariant kept -/
+theorem step_ok {E : Env} {p r} (hE1 : E.fixEmpty = true) (hE2 : E.fixBytes = true)
+    (h : Inv p r) (op : Op) (hv : Valid r op) :
+    ∃ p' res r', step E p op = .ok (p', res) ∧ Ref.step E.mal r op res = some r' ∧ Inv p' r' := by
+  cases op with
+  | alloc =>
+    obtain ⟨p', res, r', h1, h2, h3⟩ := alloc_ok hE1 hE2 h hv
+    exact ⟨p', .blk res, r', by simp [step, h1, Except.map], h2, h3⟩
+  | free b =>
+    have hb : b ∈ r.live := hv
+    obtain ⟨h1, h2⟩ := free_ok h b hb
+    refine ⟨freed p b, .unit, _, by simp [step, h1, Except.map], ?_, h2⟩
+    simp [Ref.step, hb]
+  | ensure n =>
+    obtain ⟨p', h1, h2, _, _, _⟩ := ensure_ok hE1 hE2 h n
+    refine ⟨p', .bool (Ref.ensure E.mal r n).2, (Ref.ensure E.mal r n).1,
+      by simp [step, h1, Except.map], ?_, h2⟩
+    simp [Ref.step]
+  | setFlag f =>
+    refine ⟨setFlag p f, .unit, { r with flag := f }, rfl, rfl, ?_⟩
+    exact { h with flag := rfl }
+  | setMaxDelta d =>
+    refine ⟨setMaxDelta p d, .unit, { r with maxDelta := d }, rfl, rfl, ?_⟩
+    exact { h with md := rfl }
+
+/-- the pool right after a successful `init` -/
+def initPool (cap b : Nat) : Pool :=
+  { ptrBuf := newBlocks 0 cap, allocIdx := 0, freeIdx := 0, capacity := cap, used := 0,
+    blockSize := b, slabs := [cap], slabBytes := [b * cap], flag := 0,
+    maxDelta := if b > 8 * 1024 then cap else 512 * 1024 }
+
+/-- the reference state right after a successful `init` -/
+def initRef (cap b : Nat) : Ref :=
+  { live := [], slabs := [cap], blockSize := b, flag := 0,
+    maxDelta := if b > 8 * 1024 then cap else 512 * 1024 }
+
+theorem initPool_inv (cap b : Nat) (hc : 0 < cap) (hb : 0 < b) :
+    Inv (initPool cap b) (initRef cap b) := by
+  have hav : avail (initPool cap b) = newBlocks 0 cap := by
+    simp only [avail, initPool, rot_zero, Nat.sub_zero]
+    apply List.take_of_length_le; simp [length_newBlocks]
+  constructor
+  · exact length_newBlocks 0 cap
+  · exact Nat.zero_le _
+  · exact hc
+  · show 0 = wrapAdd 0 (cap - 0) cap
+    unfold wrapAdd; split <;> omega
+  · rw [hav]; simp [allBlocks, blocksFrom, initPool, initRef]
+  · rfl
+  · rfl
+  · rfl
+  · exact hb
+  · rfl
+  · rfl
+  · simp [initPool]
+
+/-- `init` of the repaired source fails exactly when the reference `init` fails, and
+    otherwise establishes the invariant with no live block -/
+theorem init_ok {E : Env} (hE2 : E.fixBytes = true) (c b : Nat) :
+    match init E c b, Ref.init E.mal c b with
+    | some p, some r => Inv p r ∧ r.live = []
+    | none, none => True
+    | _, _ => False := by
+  unfold init Ref.init
+  simp only [slabRequest, hE2, if_true]
+  by_cases hb : b = 0
+  · simp [hb]
+  · simp only [hb, if_false, false_or]
+    by_cases hov : (if c = 0 then 8 else c) > SIZE_MAX / b
+    · simp [hov]
+    · simp only [hov, if_false, false_or]
+      cases h1 : E.mal PTR <;> simp only [Bool.not_false, Bool.not_true, if_true,
+        Bool.false_eq_true, if_false, true_or]
+      cases h2 : E.mal (PTR * (if c = 0 then 8 else c)) <;> simp only [Bool.not_false,
+        Bool.not_true, if_true, Bool.false_eq_true, if_false, true_or, false_or]
+      cases h3 : E.mal (b * (if c = 0 then 8 else c)) <;> simp only [Bool.not_false,
+        Bool.not_true, if_true, Bool.false_eq_true, if_false, true_or, false_or]
+      have hc : 0 < (if c = 0 then 8 else c) := by split <;> omega
+      exact ⟨initPool_inv _ b hc (Nat.pos_of_ne_zero hb), trivial⟩
+
+
+/-! ## Frame facts that hold for every variant of the source (no invariant needed) -/
+
+/-- `ensure_space` never removes, renumbers or resizes a data buffer, and touches neither
+    `used` nor the configuration -/
+theorem ensureSpace_frame {E : Env} {p p' : Pool} {n : Nat} {ok : Bool}
+    (h : ensureSpace E p n = .ok (p', ok)) :
+    p.slabs <+: p'.slabs ∧ p.slabBytes <+: p'.slabBytes ∧ p'.used = p.used ∧
+      p'.flag = p.flag ∧ p'.maxDelta = p.maxDelta ∧ p'.blockSize = p.blockSize := by
+  unfold ensureSpace at h
+  by_cases h1 : n ≤ p.capacity
+  · simp only [h1, if_true] at h; cases h; simp
+  simp only [h1, if_false] at h
+  by_cases h2 : p.isConst = true
+  · simp only [h2, if_true] at h; cases h; simp
+  simp only [h2, Bool.false_eq_true, if_false] at h
+  cases hreq : slabRequest E p.blockSize (n - p.capacity) with
+  | none => simp only [hreq] at h; cases h; simp
+  | some bytes =>
+  simp only [hreq] at h
+  by_cases h3 : (!E.mal (PTR * (p.slabs.length + 1))) = true
+  · simp only [h3, if_true] at h; cases h; simp
+  simp only [h3, Bool.false_eq_true, if_false] at h
+  by_cases h4 : (!E.mal bytes) = true
+  · simp only [h4, if_true] at h; cases h; simp
+  simp only [h4, Bool.false_eq_true, if_false] at h
+  by_cases h5 : (!E.mal (PTR * n)) = true
+  · simp only [h5, if_true] at h; cases h; simp
+  simp only [h5, Bool.false_eq_true, if_false] at h
+  cases hs : sections E p with
+  | error e => simp [hs, bind, Except.bind] at h
+  | ok v =>
+    obtain ⟨fr, al⟩ := v
+    simp only [hs, bind, Except.bind] at h
+    split at h
+    · cases h
+    · simp only [pure, Except.pure, Except.ok.injEq, Prod.mk.injEq] at h
+      obtain ⟨h, _⟩ := h
+      subst h
+      simp
+
+/-- `alloc` never removes, renumbers or resizes a data buffer -/
+theorem alloc_frame {E : Env} {p p' : Pool} {res : Option BlockId}
+    (h : alloc E p = .ok (p', res)) :
+    p.slabs <+: p'.slabs ∧ p.slabBytes <+: p'.slabBytes := by
+  have htake : ∀ q q' : Pool, ∀ res, take q = .ok (q', res) →
+      q'.slabs = q.slabs ∧ q'.slabBytes = q.slabBytes := by
+    intro q q' res hq
+    unfold take at hq
+    split at hq
+    · cases hq
+    · cases hq; simp
+  unfold alloc at h
+  split at h
+  · split at h
+    · cases h
+    · next q hq =>
+      have := ensureSpace_frame hq
+      obtain ⟨h1, h2⟩ := htake _ _ _ h
+      rw [h1, h2]; exact ⟨this.1, this.2.1⟩
+    · next q hq =>
+      have := ensureSpace_frame hq
+      cases h; exact ⟨this.1, this.2.1⟩
+  · obtain ⟨h1, h2⟩ := htake _ _ _ h
+    rw [h1, h2]; exact ⟨List.prefix_refl _, List.prefix_refl _⟩
+
+/-- no operation ever removes, renumbers or resizes a data buffer -/
+theorem step_frame {E : Env} {p p' : Pool} {op : Op} {res : Res}
+    (h : step E p op = .ok (p', res)) :
+    p.slabs <+: p'.slabs ∧ p.slabBytes <+: p'.slabBytes := by
+  cases op with
+  | alloc =>
+    simp only [step, Except.map] at h
+    split at h
+    · cases h
+    · next v hv => cases h; exact alloc_frame hv
+  | free b =>
+    simp only [step, Except.map] at h
+    split at h
+    · cases h
+    · next v hv =>
+      cases h
+      unfold free at hv
+      split at hv
+      · cases hv
+      · split at hv
+        · cases hv; exact ⟨List.prefix_refl _, List.prefix_refl _⟩
+        · cases hv
+  | ensure n =>
+    simp only [step, Except.map] at h
+    split at h
+    · cases h
+    · next v hv =>
+      cases h
+      have := ensureSpace_frame hv
+      exact ⟨this.1, this.2.1⟩
+  | setFlag f => cases h; exact ⟨List.prefix_refl _, List.prefix_refl _⟩
+  | setMaxDelta d => cases h; exact ⟨List.prefix_refl _, List.prefix_refl _⟩
+
+/-! ## Facts about the reference model alone -/
+
+theorem ref_ensure_cases (mal : Nat → Bool) (r : Ref) (n : Nat) :
+    (n ≤ r.cap ∧ Ref.ensure mal r n = (r, true)) ∨
+    (r.cap < n ∧ r.canGrow mal n = true ∧
+      Ref.ensure mal r n = ({ r with slabs := r.slabs ++ [n - r.cap] }, true)) ∨
+    (r.cap < n ∧ r.canGrow mal n = false ∧ Ref.ensure mal r n = (r, false)) := by
+  simp only [Ref.ensure]
+  by_cases h1 : n ≤ r.cap
+  · left; simp [h1]
+  · right
+    cases h2 : r.canGrow mal n
+    · right; simp [h1]; omega
+    · left; simp [h1]; omega
+
+theorem ref_cap_grown (r : Ref) (n : Nat) (h : r.cap < n) :
+    Ref.cap { r with slabs := r.slabs ++ [n - r.cap] } = n := by
+  simp only [Ref.cap, List.sum_append, List.sum_cons, List.sum_nil]
+  simp only [Ref.cap] at h; omega
+
+/-- the reference `alloc` step, case by case -/
+theorem ref_alloc_cases {mal : Nat → Bool} {r r' : Ref} {res : Option BlockId}
+    (h : Ref.step mal r .alloc (.blk res) = some r') :
+    ∃ r1 ok, (if r.used = r.cap then r.ensure mal ((r.cap + r.growStep) % U32) else (r, true))
+        = (r1, ok) ∧
+      ((ok = false ∧ res = none ∧ r' = r1) ∨
+       (ok = true ∧ ∃ b, res = some b ∧ r1.used < r1.cap ∧ validB r1.slabs b = true ∧
+          b ∉ r1.live ∧ r' = { r1 with live := r1.live ++ [b] })) := by
+  simp only [Ref.step] at h
+  generalize (if r.used = r.cap then Ref.ensure mal r ((r.cap + r.growStep) % U32) else (r, true))
+    = e at h
+  obtain ⟨r1, ok⟩ := e
+  refine ⟨r1, ok, rfl, ?_⟩
+  cases ok <;> cases res <;> simp only at h
+  · left; cases h; exact ⟨rfl, rfl, rfl⟩
+  · cases h
+  · cases h
+  · next b =>
+    right
+    split at h
+    · next hc =>
+      cases h
+      simp only [Bool.and_eq_true, Bool.not_eq_true', decide_eq_true_eq] at hc
+      exact ⟨rfl, b, rfl, hc.1.1, hc.1.2, by simpa using hc.2, rfl⟩
+    · cases h
 
 end MgProof.C06
